@@ -3,7 +3,7 @@ import random
 import time
 import numpy as _np
 
-from .jets import Field, J, CJ, Undecided, NeedResample, same
+from .jets import Field, J, CJ, Undecided, NeedResample, OrderExhausted, same
 from .e1 import Env, tens, untens, discover_guards
 from .universe import Universe, SpecUnavailable, arr, ozeros
 from . import contracts as CT
@@ -21,6 +21,9 @@ SCENARIOS = {
     # only the shift component beta^y supplied (x, z default to 0)
     'shift_y': dict(mode='free', matter='none', input_form='components', shift='y', order=1),
     'noshift': dict(mode='free', matter='none', input_form='tensor', shift='zero', order=1),
+    # nothing supplied at all: every quantity must follow from the documented defaults
+    'default': dict(mode='free', matter='none', input_form='none', shift='zero', lapse='one', with_K=False,
+                    flat=True, order=1),
 }
 
 
@@ -38,6 +41,8 @@ def make_world(scen, seed):
                 U.base['dtbeta'] = arr([J.const(F, 0)] * 3)
             if scen == 'noshift':
                 U.drop_inputs('betaup3', 'dtbetaup3')
+            if scen == 'default':
+                U.drop_inputs('alpha', 'dtalpha')
             return F, U, Env(F)
         except NeedResample as e:
             last = e
@@ -93,7 +98,7 @@ def function_obligations(R, worlds, name, scens, npoints=1, prop_tag='ensures', 
                     F, U, env = worlds.fresh(scen, 0, 100 + attempt)
             else:
                 raise Undecided('resampling exhausted in spec evaluation')
-        except SpecUnavailable:
+        except (SpecUnavailable, OrderExhausted):
             continue
         except (Undecided, NeedResample) as e:
             R.ob(f'core.{name}[{scen}]:spec', name, 'undecided', backend, 0.0, f'spec evaluation: {e}')
